@@ -57,7 +57,7 @@ PROPERTY = {
         dict(_c02.SUITE, name="receiver", jobs=recv_jobs, redirects=RECV_REDIR, overrides=RECV_OVR,
              files=["zz_verif_env.go", "zz_verif_merge.go", "zz_verif_c11recv.go"]),{"name": "encryption", "pkg": "internal/core/block", "files": ["zz_verif_block.go", "zz_verif_c11.go"], "common": ["intrinsics", "kvmodel"],
                 "jobs": jobs, "redirects": REDIR, "overrides": OVR, "unwind": 60, "witnesses": {"quick": 6, "thorough": 12}}],
-    "bounds": {"fields": 2, "payload": "2 symbolic bytes per write", "history": "create (any encryption config: doc-level, any subset of the two fields, both) writing any subset of the fields, then one update without config writing any subset"},
+    "bounds": {"fields": 2, "payload": "2 symbolic bytes per write", "history": "create (any encryption config: doc-level, any subset of the two fields, both) writing any subset of the fields, then one update without config writing any subset", "mixed heads": "a field with one encrypted head written here and one plaintext head merged from a peer (height 1..3), in either CID order, then a local update"},
     "assumptions": ["model cipher inside the solver run (injective, key-dependent, never equal to the plaintext); natively real AES-GCM", "injective block codec; block and key stores as tables"],
     "outside_claim": ["AES-GCM itself, key exchange (internal/kms)", "what net puts on the wire beyond the update event bytes", "key exchange after a missing key (tryFetchMissingBlocksAndMerge waits on the event bus)"],
 }
